@@ -137,3 +137,34 @@ def build(bmod, pmod):
         cs.append(Contract('calmjs.parse.parsers.es5:parse', params={'source': Str, 'with_comments': Const(wc)},
                            ensures=['result is tree()', 'ctor_flag() is %r' % wc, 'parsed_text() is source'], env=env3, notes='with_comments=%s' % wc))
     return cs
+
+
+def build_init(base_module):
+    """BaseUnparser.__init__: the printer keeps its OWN definitions table with the entries it was given (the table it is built from --
+    by default the module-level one of the dialect -- must not change when somebody customises this printer, nor the other way round:
+    C14 / C20 speak about printers, not about one shared table); everything else is stored as given."""
+    from vf.pyvc.dsl import Obj
+    from vf.pyvc.engine import PDict
+    Base = base_module.BaseUnparser
+    rule_a, rule_b = PObj(object, name='rule_a'), PObj(object, name='rule_b')
+    DEFS = {'Kind': (rule_a,), 'Other': (rule_a, rule_b)}
+
+    class Table(object):
+        def make(self, name):
+            return PDict(dict(DEFS))
+
+        def __repr__(self):
+            return 'definitions'
+    TH, WALK, DCLS, LH, DH = (PObj(object, name=n) for n in ('token_handler', 'walk', 'dispatcher_cls', 'layout_handlers', 'deferrable_handlers'))
+    rule = PObj(object, name='rule_factory')
+
+    def own_copy(e, mine, given):
+        return isinstance(mine, PDict) and isinstance(given, PDict) and mine is not given and mine.val == DEFS and given.val == DEFS
+    env = {'own_copy': Helper(own_copy)}
+    cs = [Contract(MODULE + ':BaseUnparser.__init__',
+                   params={'self': Obj(Base, {}), 'definitions': Table(), 'token_handler': Const(TH), 'rules': Const((rule,)), 'layout_handlers': Const(LH),
+                           'deferrable_handlers': Const(DH), 'prewalk_hooks': Const(('h',)), 'walk': Const(WALK), 'dispatcher_cls': Const(DCLS)},
+                   ensures=['own_copy(self.definitions, definitions)', 'self.token_handler is token_handler', 'self.rules == rules',
+                            'self.layout_handlers is layout_handlers', 'self.deferrable_handlers is deferrable_handlers',
+                            "self.prewalk_hooks == ('h',)", 'self.walk is walk', 'self.dispatcher_cls is dispatcher_cls'], env=env)]
+    return cs
